@@ -15,8 +15,8 @@ RULE = ("seeded placements of one constraint (Pin, ExactlyK, AtLeastKInARow, Exa
         "constraint per repetition or globally; non-trivial = >=2 solutions of the composed block and >=2 repetitions; distinct = "
         "(constraint kind, placement, combinator, preamble, design skeleton)")
 ASSUMPTIONS = ["reference window semantics (sim/refsem.py B.5/B.6) reads the documentation correctly"]
-BUDGET = {"quick": 45, "thorough": 900}
-RUNS = {"quick": 2500, "thorough": 60000}
+BUDGET = {"quick": 300, "thorough": 900}
+RUNS = {"quick": 1500, "thorough": 60000}
 KINDS = ["pin", "exactlyk", "atleast", "exactlyrow", "atmost"]
 
 
